@@ -613,7 +613,13 @@ class Array(metaclass=MetaArray):
             shape = get_shape_from_array(value, len(self._shape))
             same = tuple(shape) == tuple(self._shape)
         if same:
-            self.__class__._to_buffer(self._buffer, self._offset, value)
+            info = self.__class__._inspect_args(value)
+            if info.size != self._get_size():
+                raise ValueError(
+                    f"{value} needs {info.size} bytes, "
+                    f"{self} was created with {self._get_size()}"
+                )
+            self.__class__._to_buffer(self._buffer, self._offset, value, info)
         else:
             if is_integer(value):
                 raise ValueError(f"Cannot specify new length {ll} for {self}")
